@@ -171,9 +171,9 @@ def run(chk):
                         last = ({"kind": rec["kind"], "val": rec["val"], "owner": owner}, n)
                         objs.append(last)
                         # the new object is a working member of its registry: it behaves like the same object made there directly
-                        # (a container taken as given by from_tuple may mention a prefixed unit its registry has not registered yet: the
-                        #  statement promises registration for unpickling only, so such objects and their copies are not exercised further)
-                        if how != "tuple" and rec["val"].split()[1] in h["known"][owner]:
+                        # (a container taken as given by from_tuple may mention a prefixed unit its registry has not registered yet: such an
+                        #  object is nevertheless a working member of its registry - prefixed units are defined on the fly when first needed)
+                        if True:
                             if how == "pickle" and PREFIXED[rec["val"].split()[1]] not in set(iter(regs["app"])):
                                 chk.diverge({"clause": "prefixed-unit-not-registered", "registry": "app", "op": "serialize", "how": "pickle"}, {"ops": [x["op"] for x in hist[:k + 1]]})
                             try:
